@@ -15,6 +15,7 @@ import (
 	"sort"
 	"strconv"
 	"strings"
+	"time"
 
 	logging "gopkg.in/op/go-logging.v1"
 
@@ -561,7 +562,7 @@ func goodPath(p string) bool {
 }
 
 type seqKind struct {
-	kw                                  string
+	kw                                 string
 	runnable, multiple, dir, out, hash bool
 }
 
@@ -1088,6 +1089,118 @@ func fatalEP(c *Case) bool {
 
 func flush(r *lib.Run, p *pending) {}
 
+// ---------------------------------------------------------------- end to end: the real plz binary
+
+var e2eSeq int
+
+// runE2E builds one genrule with the real binary ($VERIF_PLZ) in a fresh scratch repository and judges the
+// property at its stated observation point: build success and the content the command produced by reading the
+// expanded path.  The model has no say here (both sides print "-").
+func runE2E(r *lib.Run, op string, f []string) {
+	must(len(f) == 3)
+	kind, name := f[1], unhx(f[2])
+	must(kind == "file" || kind == "multi" || kind == "nondep" || kind == "typo")
+	must(name != "" && !strings.ContainsAny(name, "\"\\\n/") && !strings.HasPrefix(name, "."))
+	r.Emit(op, "-", false)
+	plz := os.Getenv("VERIF_PLZ")
+	if _, err := os.Stat(plz); plz == "" || err != nil {
+		r.Count("e2e-no-binary")
+		return
+	}
+	e2eSeq++
+	root := filepath.Clean(filepath.Join(emptyDir, "..", "e2e"+strconv.Itoa(e2eSeq)))
+	os.RemoveAll(root)
+	defer os.RemoveAll(root)
+	if err := os.MkdirAll(filepath.Join(root, "pkg"), 0o755); err != nil {
+		panic(err)
+	}
+	os.WriteFile(filepath.Join(root, ".plzconfig"), nil, 0o644)
+	content := "content of " + name + "\n"
+	os.WriteFile(filepath.Join(root, "pkg", name), []byte(content), 0o644)
+	os.WriteFile(filepath.Join(root, "pkg", "ab"), []byte("sibling\n"), 0o644) // gives a glob something to find
+	build := ""
+	switch kind {
+	case "file":
+		build = fmt.Sprintf("genrule(name = \"t\", srcs = [\"%s\", \"ab\"], outs = [\"t.out\"], cmd = \"cat $(location %s) > $OUT\")\n", name, name)
+	case "typo":
+		build = fmt.Sprintf("genrule(name = \"t\", srcs = [\"ab\"], outs = [\"t.out\"], cmd = \"echo $(location %s) > $OUT\")\n", name)
+	case "multi":
+		build = "genrule(name = \"two\", outs = [\"o1\", \"o2\"], cmd = \"touch $OUTS\")\n" +
+			"genrule(name = \"t\", srcs = [\":two\"], outs = [\"t.out\"], cmd = \"echo $(location :two) > $OUT\")\n"
+	case "nondep":
+		build = "genrule(name = \"other\", outs = [\"o1\"], cmd = \"touch $OUT\")\n" +
+			"genrule(name = \"t\", srcs = [\"ab\"], outs = [\"t.out\"], cmd = \"echo $(location :other) > $OUT\")\n"
+	}
+	os.WriteFile(filepath.Join(root, "pkg", "BUILD"), []byte(build), 0o644)
+	home := filepath.Join(root, ".home")
+	os.MkdirAll(home, 0o755)
+	cmd := exec.Command(plz, "build", "//pkg:t", "--plain_output", "--noupdate")
+	cmd.Dir = root
+	cmd.Env = []string{"HOME=" + home, "XDG_CACHE_HOME=" + filepath.Join(home, "cache"), "XDG_CONFIG_HOME=" + filepath.Join(home, "config"), "PATH=/usr/bin:/bin", "PLZ_NO_UPDATE=1"}
+	var out bytes.Buffer
+	cmd.Stdout, cmd.Stderr = &out, &out
+	done := make(chan error, 1)
+	if err := cmd.Start(); err != nil {
+		r.Count("e2e-cannot-start")
+		return
+	}
+	go func() { done <- cmd.Wait() }()
+	var err error
+	select {
+	case err = <-done:
+	case <-time.After(180 * time.Second):
+		cmd.Process.Kill()
+		r.Count("e2e-timeout")
+		return
+	}
+	text := out.String()
+	r.Count("e2e:" + kind)
+	tail := text
+	if len(tail) > 300 {
+		tail = tail[len(tail)-300:]
+	}
+	switch kind {
+	case "file":
+		if err != nil && !strings.Contains(text, "Error building target") {
+			r.Count("e2e-not-a-build-failure")
+			return
+		}
+		got, _ := os.ReadFile(filepath.Join(root, "plz-out/gen/pkg/t.out"))
+		if err == nil && string(got) == content {
+			r.Count("e2e-pass")
+			return
+		}
+		cls := "e2e-valid-location-fails"
+		if strings.Contains(name, ")") {
+			// the regex stops at the first ")": the sequence as parsed names a prefix of the file name, which is not a source
+			cls = "plain-name-not-checked-against-sources"
+		} else if !goodPath("pkg/" + name) {
+			cls = "quote-misses-shell-metachar"
+		}
+		r.OracleFail(cls, op, fmt.Sprintf("plz build of `cat $(location %s) > $OUT`: err=%v, output %q, want %q; %s", name, err, got, content, strings.TrimSpace(tail)))
+	case "typo":
+		if err == nil {
+			r.OracleFail("plain-name-not-checked-against-sources", op, fmt.Sprintf("plz build accepts $(location %s) although it is not a source", name))
+		} else {
+			r.Count("e2e-pass")
+		}
+	case "multi":
+		if err == nil {
+			r.OracleFail("accepted-needs-one-output-has-2", op, "plz build accepts $(location :two) on a rule with two outputs")
+		} else if strings.Contains(text, "multiple outputs") {
+			r.Count("e2e-pass")
+		} else {
+			r.Count("e2e-failed-for-another-reason")
+		}
+	case "nondep":
+		if err == nil {
+			r.OracleFail("accepted-not-a-dependency", op, "plz build accepts $(location :other) although :other is not a dependency")
+		} else {
+			r.Count("e2e-pass")
+		}
+	}
+}
+
 func runOp(r *lib.Run, p *pending, op string, withFS bool) {
 	defer func() {
 		if e := recover(); e != nil {
@@ -1141,6 +1254,8 @@ func runOp(r *lib.Run, p *pending, op string, withFS bool) {
 		} else {
 			r.Count("lbl:parsed")
 		}
+	case "e2e":
+		runE2E(r, op, f)
 	case "sw":
 		must(len(f) == 2)
 		text := unhx(f[1])
@@ -1508,6 +1623,14 @@ func main() {
 		}
 		runOp(r, p, "sw "+hx(s), false)
 	}
+	// 5. end to end with the real binary
+	e2eNames := []string{"c.txt", "a-b_1.txt", "a b.txt", "a$b.txt", "a*", "a;b.txt", "a&b.txt", "x'y.txt", "t`u`", "#c", "~", "a=b", "p(1).txt", "é.txt"}
+	for _, n := range e2eNames {
+		runOp(r, p, "e2e file "+hx(n), false)
+	}
+	runOp(r, p, "e2e typo "+hx("nosuch.txt"), false)
+	runOp(r, p, "e2e multi "+hx("x"), false)
+	runOp(r, p, "e2e nondep "+hx("x"), false)
 	if server != nil {
 		server.cmd.Process.Kill()
 		server.cmd.Wait()
